@@ -187,7 +187,9 @@ Section WithIdent.
     - destruct (ra_index a) eqn:Ei; [discriminate|].
       apply bind_RPanic in H. destruct H as [H|[i [_ H]]]; [|discriminate].
       unfold str_resolved in Ha. unfold resolve_sym in H. destruct (ra_sym a).
-      + destruct (sm_get n terms); [discriminate|]. destruct (sm_get n nts); [|discriminate].
+      + destruct (sm_get n terms); [discriminate|].
+        destruct (existsb (String.eqb n) ["AUG"; "AUGL"]%string); [discriminate|].
+        destruct (sm_get n nts); [|discriminate].
         destruct ((rl =? 1) && (nd_idx n0 =? pn)); discriminate.
       + congruence.
     - apply bind_RPanic in H. destruct H as [H|[r1 [_ H]]]; [eapply IH; eauto|discriminate].
